@@ -251,4 +251,83 @@ theorem runL_state {hs : List HStep} : ∀ {s s' : State} {outs : List HOut}, In
           cases h1
           exact ⟨[] :: evss, by simp only [List.map_cons, HStep.toOp, run, step, hrun]⟩
 
+/-! ### which lookups an operation can change (what a router that keeps its own copy must be told) -/
+
+/-- The well-known names whose owner an operation may change: the requested / released name; for a
+disconnect the names of the connection's own table (the loop of `clientDisconnected`). -/
+def changedNames (s : State) : Op → List Name
+  | .request _ n _ => [n]
+  | .release _ n => [n]
+  | .disconnect c =>
+    match Dict.get? s.clients c with
+    | some t => Dict.keys t
+    | none => []
+  | _ => []
+
+theorem step_queue_frame {s : State} (hI : Inv s) {op : Op} {s' : State} {evs : List Event}
+    (h : step s op = .ok (s', evs)) (n : Name) (hn : n ∉ changedNames s op) :
+    s'.queue n = s.queue n := by
+  cases op with
+  | connect =>
+    obtain ⟨s1, ev1, h1, p⟩ := connect_post hI
+    have : step s .connect = connect s := rfl
+    rw [this, h1] at h
+    cases h
+    exact p.queue_eq n
+  | disconnect c =>
+    have hs : step s (.disconnect c) = disconnect s c := rfl
+    rw [hs] at h
+    have hc := disconnect_connected h
+    obtain ⟨s1, ev1, h1, p⟩ := disconnect_post hI hc
+    rw [h1] at h
+    cases h
+    rw [p.queue_eq n]
+    apply List.erase_of_not_mem
+    intro hmem
+    obtain ⟨t, b, ht, hb, _⟩ := flag_get (hI.tabled n c hmem)
+    apply hn
+    simp only [changedNames, ht]
+    exact mem_keys_of_get hb
+  | request c m w =>
+    have hs : step s (.request c m w) = requestName s c m w := rfl
+    rw [hs] at h
+    have hc := requestName_connected h
+    obtain ⟨s1, ev1, h1, p⟩ := requestName_post hI hc m w
+    rw [h1] at h
+    cases h
+    have hne : n ≠ m := by
+      intro e; apply hn; simp [changedNames, e]
+    rw [p.queue_eq n, if_neg hne]
+  | release c m =>
+    have hs : step s (.release c m) = releaseName s c m := rfl
+    rw [hs] at h
+    have hc := releaseName_connected h
+    obtain ⟨s1, ev1, code, h1, p⟩ := releaseName_post hI hc m
+    rw [h1] at h
+    cases h
+    have hne : n ≠ m := by
+      intro e; apply hn; simp [changedNames, e]
+    rw [p.queue_eq n, if_neg hne]
+  | getOwner c m =>
+    have hs : step s (.getOwner c m) = getNameOwner s c m := rfl
+    rw [hs, getNameOwner_post hI] at h
+    cases h; rfl
+  | listQueued c m =>
+    have hs : step s (.listQueued c m) = listQueuedOwners s c m := rfl
+    rw [hs, listQueuedOwners_post] at h
+    cases h; rfl
+  | other c =>
+    have hs : step s (.other c) = .ok (s, []) := rfl
+    rw [hs] at h
+    cases h; rfl
+
+/-- An operation changes the router's answer only for the names in `changedNames`. -/
+theorem step_lookup_frame {s : State} (hI : Inv s) {op : Op} {s' : State} {evs : List Event}
+    (h : step s op = .ok (s', evs)) (n : Name) (hn : n ∉ changedNames s op) :
+    routerLookup s' (.wellKnown n) = routerLookup s (.wellKnown n) := by
+  have hI' := (step_refines hI h).1
+  rw [routerLookup_wellKnown hI', routerLookup_wellKnown hI]
+  unfold State.owner
+  rw [step_queue_frame hI h n hn]
+
 end Txdbus.Bus
